@@ -1,19 +1,22 @@
+\* a node.Wait that releases finishedMu before it receives from errCh (seeded change C07-r2m1): the stopper and
+\* the task store's waiter both receive from the one-shot errCh of the same node, one of them blocks for ever.
+\* Expected: deadlock (either the stop call or the waiter never returns).
 SPECIFICATION Spec
 CONSTANTS
-    MaxPts = 4
+    MaxPts = 2
     K = 1
-    BufSize = 3
-    Topos <- MCInfluxOnly
+    BufSize = 2
+    Topos <- MCToposSmall
     StopKinds <- BothKinds
-    AllowFail = TRUE
+    AllowFail = FALSE
     MaxN = 3
     MaxE = 4
     InfluxStopF = FALSE
     ReaderDone = TRUE
     AlertCloseOnErr = TRUE
     UdfStopAborts = FALSE
-    NWaiters = 0
-    WaitHoldsMu = TRUE
+    NWaiters = 1
+    WaitHoldsMu = FALSE
     HookNeedsTmLock = FALSE
 INVARIANTS
     TypeOK
@@ -27,6 +30,3 @@ INVARIANTS
     NoCollectOnClosed
     StoppedMeansQuiet
 CHECK_DEADLOCK TRUE
-PROPERTIES
-    StopCompletes
-    AllGoroutinesExit
